@@ -273,60 +273,45 @@ def f64_abs(x: ir.f64) -> ir.f64:
     return math.fabs(x)
 
 
-def f32_floor(x: ir.f32) -> ir.f32:
-    if math.isinf(x):
+def _round_float(x: float, rounder) -> float:
+    """Round to an integral float: NaN and infinities pass through and the
+    sign of the operand is kept (ceil(-0.5) is -0.0)."""
+    if math.isinf(x) or math.isnan(x):
         return x
     else:
-        return float(math.floor(x))
+        return math.copysign(float(rounder(x)), x)
+
+
+def f32_floor(x: ir.f32) -> ir.f32:
+    return _round_float(x, math.floor)
 
 
 def f64_floor(x: ir.f64) -> ir.f64:
-    if math.isinf(x):
-        return x
-    else:
-        return float(math.floor(x))
+    return _round_float(x, math.floor)
 
 
 def f32_ceil(x: ir.f32) -> ir.f32:
-    if math.isinf(x):
-        return x
-    else:
-        return float(math.ceil(x))
+    return _round_float(x, math.ceil)
 
 
 def f64_ceil(x: ir.f64) -> ir.f64:
-    if math.isinf(x):
-        return x
-    else:
-        return float(math.ceil(x))
+    return _round_float(x, math.ceil)
 
 
 def f32_nearest(x: ir.f32) -> ir.f32:
-    if math.isinf(x):
-        return x
-    else:
-        return float(round(x))
+    return _round_float(x, round)
 
 
 def f64_nearest(x: ir.f64) -> ir.f64:
-    if math.isinf(x):
-        return x
-    else:
-        return float(round(x))
+    return _round_float(x, round)
 
 
 def f32_trunc(x: ir.f32) -> ir.f32:
-    if math.isinf(x):
-        return x
-    else:
-        return float(math.trunc(x))
+    return _round_float(x, math.trunc)
 
 
 def f64_trunc(x: ir.f64) -> ir.f64:
-    if math.isinf(x):
-        return x
-    else:
-        return float(math.trunc(x))
+    return _round_float(x, math.trunc)
 
 
 def unreachable() -> None:
